@@ -2,7 +2,8 @@
  * usage: drive_handles <workdir> <history file>
  * Every history ("N" ... next "N") runs in a forked child on fresh copies p0,p1,p2 of three prepared files.
  * Each op prints exactly one line: a monitor line for the abstract handle table (extract/atom_main.ml, mode ht)
- *    O k obj argsok ans | I k parent pk sub argsok ans | U k id ans | L k id ans      (ans = F or integer)
+ *    O k obj argsok ans | I k parent pk sub argsok ans | U k id ans | L k id ans | P k1 id1 k2 id2 argsok ans
+ *    (ans = F or integer; P = a call that takes two ids)
  * or "-" for ops the handle table does not judge.  Kinds: 0 file 1 aid 2 bit 3 vg 4 vs 5 gr 6 ri 7 an 8 ann 9 sd
  * 10 sds 11 dim.  AN interface ids equal the file id by design; they are reported with AN_OFF added.
  * Object identities: root p+1; below a handle 100*parent+sub, recomputed here from what the library reports
@@ -14,6 +15,7 @@
 #include <sys/wait.h>
 #include "hdf.h"
 #include "mfhdf.h"
+#include "hchunks_priv.h"
 extern int H4_ncopts;
 #define ncopts H4_ncopts
 
@@ -26,34 +28,94 @@ static char       wdir[512];
 static const char *tpath(int p) { static char b[600]; snprintf(b, sizeof b, "%s/t%d.hdf", wdir, p); return b; }
 static const char *ppath(int p) { static char b[4][600]; snprintf(b[p & 3], 600, "%s/p%d.hdf", wdir, p); return b[p & 3]; }
 
+/* Every prepared file holds the SAME tag/refs, names apart: element ETAG/ref is filled with ebyte(p,ref) and has
+ * elen(p,ref) bytes: refs 1,2 ordinary, 3 linked blocks, 4 compressed (RLE), 5 external, 6 chunked. */
+static int ebyte(int p, int ref) { return 0x40 + p * 8 + ref; }
+static int elen(int p, int ref)
+{
+    switch (ref) {
+        case 1: case 2: return 8;
+        case 3: return 40 + 20 * p;
+        case 4: return 30 + 10 * p;
+        case 5: return 24 + 8 * p;
+        case 6: return 16 + 8 * p;
+        default: return -1;
+    }
+}
+static int vsrecs(int p, int idx) { return idx == 1 ? 10 + 15 * p : 2; }
+
 static void prep(int p)
 {
     char  nm[64];
-    uint8 buf[8];
+    uint8 buf[256];
     int32 f = Hopen(tpath(p), DFACC_CREATE, 0);
     for (int ref = 1; ref <= 2; ref++) {
-        memset(buf, 0x40 + p * 4 + ref, 8);
+        memset(buf, ebyte(p, ref), 8);
         Hputelement(f, ETAG, (uint16)ref, buf, 8);
+    }
+    {
+        int32      aid;
+        comp_info  ci;
+        model_info mi;
+        char       xn[600];
+        memset(&ci, 0, sizeof ci);
+        memset(&mi, 0, sizeof mi);
+        memset(buf, ebyte(p, 3), sizeof buf);
+        aid = HLcreate(f, ETAG, 3, 16, 4);
+        if (aid == FAIL || Hwrite(aid, elen(p, 3), buf) != elen(p, 3) || Hendaccess(aid) == FAIL) exit(4);
+        memset(buf, ebyte(p, 4), sizeof buf);
+        aid = HCcreate(f, ETAG, 4, COMP_MODEL_STDIO, &mi, COMP_CODE_RLE, &ci);
+        if (aid == FAIL || Hwrite(aid, elen(p, 4), buf) != elen(p, 4) || Hendaccess(aid) == FAIL) exit(5);
+        memset(buf, ebyte(p, 5), sizeof buf);
+        snprintf(xn, sizeof xn, "%s/x%d.dat", wdir, p);
+        remove(xn);
+        aid = HXcreate(f, ETAG, 5, xn, 0, 0);
+        if (aid == FAIL || Hwrite(aid, elen(p, 5), buf) != elen(p, 5) || Hendaccess(aid) == FAIL) exit(6);
+        {
+            HCHUNK_DEF ch;
+            DIM_DEF    dd;
+            uint8      fill = 0;
+            memset(&ch, 0, sizeof ch);
+            memset(&dd, 0, sizeof dd);
+            ch.pdims = &dd;
+            ch.num_dims = 1;
+            ch.chunk_size = 8;
+            ch.nt_size = 1;
+            ch.chunk_flag = 0;
+            ch.comp_type = COMP_CODE_NONE;
+            ch.model_type = COMP_MODEL_STDIO;
+            dd.dim_length = elen(p, 6);
+            dd.chunk_length = 8;
+            dd.distrib_type = 1;
+            memset(buf, ebyte(p, 6), sizeof buf);
+            aid = HMCcreate(f, ETAG, 6, 1, 1, &fill, &ch);
+            if (aid == FAIL || Hwrite(aid, elen(p, 6), buf) != elen(p, 6) || Hendaccess(aid) == FAIL) exit(7);
+        }
     }
     Vstart(f);
     for (int i = 0; i < 2; i++) {
         int32 vg = Vattach(f, -1, "w");
         snprintf(nm, sizeof nm, "f%dg%d", p, i);
         Vsetname(vg, nm);
+        for (int k = 0; k <= i; k++) Vaddtagref(vg, 2000 + 10 * p + i, k + 1);
         Vdetach(vg);
         int32 vs = VSattach(f, -1, "w");
         snprintf(nm, sizeof nm, "f%ds%d", p, i);
         VSsetname(vs, nm);
         VSfdefine(vs, "x", DFNT_INT32, 1);
         VSsetfields(vs, "x");
-        int32 d[2] = {p, i};
-        VSwrite(vs, (uint8 *)d, 2, FULL_INTERLACE);
+        for (int k = 0; k < vsrecs(p, i); k++) {
+            int32 d = 1000 * (p + 1) + 100 * i + k;
+            VSwrite(vs, (uint8 *)&d, 1, FULL_INTERLACE);
+            /* something else is written behind the vdata, so that it continues in linked blocks */
+            if (k == 0) Hputelement(f, 1001, (uint16)(i + 1), (const uint8 *)"pad", 3);
+        }
         VSdetach(vs);
     }
     int32 gr = GRstart(f);
     for (int i = 0; i < 2 + p; i++) {
         int32 dims[2] = {2, 2}, st[2] = {0, 0};
-        uint8 d[4]    = {1, 2, 3, 4};
+        uint8 d[4]    = {(uint8)(p * 16 + i), (uint8)(p * 16 + i + 64), (uint8)(p * 16 + i + 128), (uint8)(p * 16 + i + 192)};
         snprintf(nm, sizeof nm, "f%di%d", p, i);
         int32 ri = GRcreate(gr, nm, 1, DFNT_UINT8, MFGR_INTERLACE_PIXEL, dims);
         GRwriteimage(ri, st, NULL, dims, d);
@@ -167,21 +229,32 @@ static void run_history(char **lines, int n)
             int    r = Hinquire((int32)id, &fid, &tag, &ref, NULL, NULL, NULL, NULL, NULL);
             char  *fn = NULL;
             int    acc, att, p = -1;
+            int32  len = -1;
+            if (r != FAIL) Hinquire((int32)id, NULL, NULL, NULL, &len, NULL, NULL, NULL, NULL);
             if (r != FAIL && Hfidinquire(fid, &fn, &acc, &att) == SUCCEED) p = path_index(fn);
+            /* the length reported through the id must be the length of that file's element */
+            if (r != FAIL && p >= 0 && ref >= 1 && ref <= 6 && len != elen(p, ref)) p = -1;
             printf("U 1 %lld", id); ans(100LL * (p + 1) + ref, r != FAIL);
         }
-        else if (!strcmp(op, "hread")) {      /* use of an access element that touches the file record */
-            uint8  buf[4] = {0};
-            int32  r = Hread((int32)id, 1, buf);
-            int    p = -1, ref = 0;
-            if (r == 1) { ref = (buf[0] - 0x40) & 3; p = (buf[0] - 0x40) >> 2; if (ref == 0) { ref = 4; p--; } if (buf[0] == 0x77) { p = -1; ref = 0; } }
-            if (r == 1 && buf[0] == 0x77) {   /* element written by hnew: identity from Hinquire */
-                int32 fid; uint16 tag, rf; char *fn; int acc, att;
-                if (Hinquire((int32)id, &fid, &tag, &rf, NULL, NULL, NULL, NULL, NULL) != FAIL &&
-                    Hfidinquire(fid, &fn, &acc, &att) == SUCCEED) { p = path_index(fn); ref = rf; }
+        else if (!strcmp(op, "hread")) {      /* whole element through the access id: the bytes decide the identity */
+            uint8 buf[512];
+            int32 len = -1, n = -1;
+            int   p = -1, ref = 0, ok = 0;
+            memset(buf, 0, sizeof buf);
+            if (Hinquire((int32)id, NULL, NULL, NULL, &len, NULL, NULL, NULL, NULL) != FAIL && len > 0 && len <= 512 &&
+                Hseek((int32)id, 0, DF_START) != FAIL) {
+                n = Hread((int32)id, len, buf);
+                if (n == len) {
+                    ok = 1;
+                    p = (buf[0] - 0x40) >> 3;
+                    ref = (buf[0] - 0x40) & 7;
+                    if (p < 0 || p > 2 || elen(p, ref) != len) { p = -1; ref = 0; }
+                    for (int k = 0; k < len && p >= 0; k++)
+                        if (buf[k] != buf[0]) { p = -1; ref = 0; }
+                }
+                Hseek((int32)id, 0, DF_START);
             }
-            Hseek((int32)id, 0, DF_START);
-            printf("U 1 %lld", id); ans(100LL * (p + 1) + ref, r == 1);
+            printf("U 1 %lld", id); ans(100LL * (p + 1) + ref, ok);
         }
         else if (!strcmp(op, "hbit")) {
             int32 r = Hstartbitread((int32)S(b), ETAG, (uint16)atoi(c));
@@ -192,7 +265,7 @@ static void run_history(char **lines, int n)
         else if (!strcmp(op, "hbitrd")) {
             uint32 dat = 0;
             int    r = Hbitread((int32)id, 8, &dat);
-            int    ref = (int)((dat - 0x40) & 3), p = (int)((dat - 0x40) >> 2);
+            int    ref = (int)((dat - 0x40) & 7), p = (int)((dat - 0x40) >> 3);
             Hbitseek((int32)id, 0, 0);
             printf("U 2 %lld", id); ans(100LL * (p + 1) + 20 + ref, r == 8);
         }
@@ -215,6 +288,36 @@ static void run_history(char **lines, int n)
             int  p = -1, i = 0, r = Vgetname((int32)id, nm);
             if (r != FAIL) parse_name(nm, 'g', &p, &i);
             printf("U 3 %lld", id); ans(100LL * (p + 1) + 30 + i, r != FAIL);
+        }
+        else if (!strcmp(op, "vgmem")) {       /* content of the vgroup: its first member names the file */
+            int32 n = Vntagrefs((int32)id), t = 0, rf = 0;
+            int   p = -1, i = 0, ok = (n != FAIL);
+            if (ok && n >= 1 && Vgettagref((int32)id, 0, &t, &rf) != FAIL && t >= 2000 && t < 2030) {
+                p = (t - 2000) / 10;
+                i = (t - 2000) % 10;
+                if (n < 1 + i) p = -1;
+            }
+            printf("U 3 %lld", id); ans(100LL * (p + 1) + 30 + i, ok);
+        }
+        else if (!strcmp(op, "vinsert")) {     /* two ids: Vinsert(vgroup, vgroup|vdata) */
+            int32 r = Vinsert((int32)id, (int32)S(b));
+            printf("P 3 %lld %d %lld %s", id, c[0] == 's' ? 4 : 3, S(b), d); ans(0, r != FAIL);
+        }
+        else if (!strcmp(op, "vsread")) {      /* all records through the vdata id */
+            int32 recs[64];
+            int   p = -1, i = 0, ok = 0;
+            int32 n = VSelts((int32)id);
+            memset(recs, 0, sizeof recs);
+            if (n > 0 && n <= 64 && VSsetfields((int32)id, "x") != FAIL && VSseek((int32)id, 0) != FAIL &&
+                VSread((int32)id, (uint8 *)recs, n, FULL_INTERLACE) == n) {
+                ok = 1;
+                p = recs[0] / 1000 - 1;
+                i = (recs[0] % 1000) / 100;
+                if (p < 0 || p > 2 || i > 1 || vsrecs(p, i) != n) p = -1;
+                for (int k = 0; k < n && p >= 0; k++)
+                    if (recs[k] != 1000 * (p + 1) + 100 * i + k) p = -1;
+            }
+            printf("U 4 %lld", id); ans(100LL * (p + 1) + 40 + i, ok);
         }
         else if (!strcmp(op, "vsattach")) {
             int32 fid = (int32)S(b), r;
@@ -259,6 +362,17 @@ static void run_history(char **lines, int n)
             if (op[0] == 'g') { rid = GRgetlutid((int32)id, 0); r = rid; }
             if (r != FAIL && GRgetiminfo(rid, nm, &nc, &nt, &il, dm, &na) != FAIL) parse_name(nm, 'i', &p, &i);
             else if (op[0] == 'r') r = FAIL;
+            printf("U 6 %lld", id); ans((100LL * (p + 1) + 90) * 100 + i, r != FAIL);
+        }
+        else if (!strcmp(op, "riread")) {      /* pixels through the raster id */
+            uint8 px[16] = {0};
+            int32 st[2] = {0, 0}, cnt[2] = {2, 2};
+            int   p = -1, i = 0, r = GRreadimage((int32)id, st, NULL, cnt, px);
+            if (r != FAIL) {
+                p = px[0] / 16;
+                i = px[0] % 16;
+                if (p > 2 || px[1] != px[0] + 64 || px[2] != px[0] + 128 || px[3] != px[0] + 192) p = -1;
+            }
             printf("U 6 %lld", id); ans((100LL * (p + 1) + 90) * 100 + i, r != FAIL);
         }
         else if (!strcmp(op, "anstart")) {
@@ -308,6 +422,12 @@ static void run_history(char **lines, int n)
             int32 rk, dm[8], nt, na;
             int   p = -1, i = 0, r = SDgetinfo((int32)id, nm, &rk, dm, &nt, &na);
             if (r != FAIL) parse_name(nm, 'd', &p, &i);
+            printf("U 10 %lld", id); ans(100LL * (p + 1) + i, r != FAIL);
+        }
+        else if (!strcmp(op, "sdsread")) {     /* values through the dataset id */
+            int32 v[3] = {-1, -1, -1}, z[1] = {0}, e3[1] = {3};
+            int   p = -1, i = 0, r = SDreaddata((int32)id, z, NULL, e3, v);
+            if (r != FAIL && v[2] == 7 && v[0] >= 0 && v[0] <= 2) { p = v[0]; i = v[1]; }
             printf("U 10 %lld", id); ans(100LL * (p + 1) + i, r != FAIL);
         }
         else if (!strcmp(op, "sddim")) {
